@@ -366,8 +366,125 @@ def scc_programs():
                 yield [c05.wrap(c05.FIRST[6]), c05.wrap(rows)]
 
 
+# ---- documents written by hand (independent serialiser): every spelling of a flat span, incl. spelled-out initial values ----
+DFXP_SPELL = [
+    ("", ()),
+    ('tts:fontStyle="italic"', ("italics",)),
+    ('tts:fontStyle="normal"', ()),
+    ('tts:fontWeight="bold"', ("bold",)),
+    ('tts:fontWeight="normal"', ()),
+    ('tts:textDecoration="underline"', ("underline",)),
+    ('tts:textDecoration="none"', ()),
+    ('tts:fontStyle="italic" tts:fontWeight="normal"', ("italics",)),
+    ('tts:fontStyle="normal" tts:fontWeight="bold"', ("bold",)),
+]
+DFXP_P = ["", ' tts:fontStyle="normal"', ' tts:fontWeight="normal" tts:textDecoration="none"', ' style="sN"']
+SAMI_SPELL = [
+    ("", "", ()),
+    ('<span style="font-style:italic;">', "</span>", ("italics",)),
+    ('<span style="font-style:normal;">', "</span>", ()),
+    ('<span style="font-weight:bold;">', "</span>", ("bold",)),
+    ('<span style="font-weight:normal;">', "</span>", ()),
+    ('<span style="text-decoration:underline;">', "</span>", ("underline",)),
+    ('<span style="text-decoration:none;">', "</span>", ()),
+    ("<i>", "</i>", ("italics",)),
+    ("<b>", "</b>", ("bold",)),
+    ("<u>", "</u>", ("underline",)),
+    ('<span style="font-style:italic;font-weight:normal;">', "</span>", ("italics",)),
+]
+WORDS = ["ab", "cd", "ef"]
+
+
+def doc_cases(fmt, tier):
+    """-> (document, [(char, flags)], class)"""
+    from mc.ref import docs
+
+    if fmt == "dfxp":
+        head = '<styling><style xml:id="sI" tts:fontStyle="italic"/><style xml:id="sN" tts:fontStyle="normal" tts:fontWeight="normal"/></styling>'
+        for pi, pattr in enumerate(DFXP_P):
+            for combo in itertools.product(range(len(DFXP_SPELL)), repeat=3):
+                if pi and tier == "quick" and len(set(combo)) == 3 and sum(combo) % 3:
+                    continue
+                inner, exp = [], []
+                for w, k in zip(WORDS, combo):
+                    attr, fl = DFXP_SPELL[k]
+                    inner.append(f"<span {attr}>{w}</span>" if attr else w)
+                    exp += [(ch, frozenset(fl)) for ch in w]
+                doc = docs.dfxp_doc([("en", [('begin="1s" end="2s"' + pattr, " ".join(inner))])], head=head)
+                initial = any(("normal" in DFXP_SPELL[k][0] or "none" in DFXP_SPELL[k][0]) for k in combo) or bool(pi)
+                yield doc, exp, "spelled-out-initial-value" if initial else "plain-spellings"
+    else:
+        for combo in itertools.product(range(len(SAMI_SPELL)), repeat=3):
+            inner, exp = [], []
+            for w, k in zip(WORDS, combo):
+                o, c, fl = SAMI_SPELL[k]
+                inner.append(o + w + c)
+                exp += [(ch, frozenset(fl)) for ch in w]
+            doc = docs.sami_doc([(1000, [("en-US", " ".join(inner))]), (2000, [("en-US", "&nbsp;")])], ["en-US"])
+            initial = any(("normal" in SAMI_SPELL[k][0] or "none" in SAMI_SPELL[k][0]) for k in combo)
+            yield doc, exp, "spelled-out-initial-value" if initial else "plain-spellings"
+
+
+def run_doc(fmt, doc, exp):
+    """read the document; then write what was read as DFXP / SAMI / WebVTT: the marked characters stay the same"""
+    import pycaption
+
+    v = []
+    src_carried = {"italics"} if fmt == "dfxp" else {"italics", "bold", "underline"}
+    try:
+        cs = shared.obj(pycaption.DFXPReader if fmt == "dfxp" else pycaption.SAMIReader).read(doc)
+    except Exception as e:  # noqa
+        return [(f"raises:{type(e).__name__}@read", {"err": str(e)[:200], "doc": doc[-500:]})], "raises"
+
+    def judge(cs_, carried, where, doc_):
+        caps = cs_.get_captions(cs_.get_languages()[0])
+        if len(caps) != 1:
+            v.append((f"caption-count@{where}", {"got": len(caps)}))
+            return
+        got, balanced = caption_flags(caps[0])
+        if not balanced:
+            v.append((f"reader-style-nodes-unbalanced@{where}", {"nodes": repr(caps[0].nodes)[:400], "doc": doc_[-600:]}))
+        want = [(ch, frozenset(f & carried)) for ch, f in exp]
+        got_c = [(ch, frozenset(f & carried)) for ch, f in got]
+        if got_c != want:
+            kind = f"characters-differ@{where}" if [c for c, _ in got_c] != [c for c, _ in want] else f"flags-differ@{where}"
+            v.append((kind, {"got": show(got_c), "want": show(want), "doc": doc_[-700:]}))
+
+    judge(cs, src_carried, "read", doc)
+    if v:
+        return v, "differ"
+    for hop in ("dfxp", "sami", "vtt"):
+        try:
+            if hop == "dfxp":
+                out = shared.obj(pycaption.DFXPWriter).write(cs)
+                parsers.parse_ttml(out)
+                judge(shared.obj(pycaption.DFXPReader).read(out), {"italics"}, "read>dfxp", out)
+            elif hop == "sami":
+                out = shared.obj(pycaption.SAMIWriter).write(cs)
+                if parsers.parse_sami(out)["markup_errors"]:
+                    v.append(("sami-markup-unbalanced@read>sami", {"doc": out[-600:]}))
+                judge(shared.obj(pycaption.SAMIReader).read(out), src_carried, "read>sami", out)
+            else:
+                out = shared.obj(pycaption.WebVTTWriter).write(cs)
+                got, errors = vtt_flags(out)
+                if errors:
+                    v.append(("vtt-tags-unbalanced@read>vtt", {"err": errors[:3], "doc": out}))
+                want = [(ch, frozenset(f & src_carried)) for ch, f in exp]
+                got_c = [(ch, frozenset(f & src_carried)) for ch, f in got]
+                if got_c != want:
+                    v.append(("vtt-flags-differ@read>vtt", {"got": show(got_c), "want": show(want), "doc": out}))
+        except parsers.ParseError as e:
+            v.append((f"markup-unbalanced@read>{hop}", {"err": str(e)[:200]}))
+        except Exception as e:  # noqa
+            v.append((f"raises:{type(e).__name__}@read>{hop}", {"err": str(e)[:300]}))
+    return v, "ok" if not v else "differ"
+
+
 def shards(tier, seed):
     sh = [{"route": "scc", "shape": -1, "tier": tier, "part": 0, "nparts": 1}, {"route": "reuse", "shape": -1, "tier": tier, "part": 0, "nparts": 1}]
+    for fmt in ("dfxp", "sami"):
+        for p in range(4):
+            sh.append({"route": "docs", "fmt": fmt, "shape": -1, "tier": tier, "part": p, "nparts": 4})
     for si, shape in enumerate(shapes()):
         for route in ROUTES:
             parts = 1 if len(atoms(shape)) <= 4 else (2 if tier == "quick" else 6)
@@ -380,6 +497,15 @@ def run_shard(d):
     acc = Acc()
     if d["route"] == "reuse":
         shared.run(acc, reuse_items(), reuse_eval, sample=lambda it: {"reuse_run_step": list(it)})
+        return acc.result()
+    if d["route"] == "docs":
+        for i, (doc, exp, klass) in enumerate(doc_cases(d["fmt"], d["tier"])):
+            if i % d["nparts"] != d["part"]:
+                continue
+            v, out = run_doc(d["fmt"], doc, exp)
+            acc.case(("docs", d["fmt"], doc), True, (out, show(exp)), {"route": "hand-written " + d["fmt"] + " document", "doc": doc[-400:]})
+            for kind, det in v:
+                acc.violation(f"C11/{d['fmt']}-document/{kind}/{klass}", {"route": "docs", "fmt": d["fmt"], "index": i, "tier": d["tier"]}, det)
         return acc.result()
     if d["route"] == "scc":
         from mc.checks import c05
@@ -413,6 +539,12 @@ def run_shard(d):
 def replay(case):
     if case.get("reuse"):
         return shared.replay(reuse_items(), reuse_eval, case["index"])
+    if case.get("route") == "docs":
+        for i, (doc, exp, klass) in enumerate(doc_cases(case["fmt"], case["tier"])):
+            if i == case["index"]:
+                v, _ = run_doc(case["fmt"], doc, exp)
+                return [{"sig": f"C11/{case['fmt']}-document/{kind}/{klass}", "detail": det} for kind, det in v]
+        return []
     if case.get("route") == "scc":
         from mc.checks import c05
 
